@@ -64,7 +64,7 @@ def main():
                 copies.append((src, dst))
         tests = []
         for m in re.finditer(r"(go(?:1\.26\.8)? test[^\n#&|;]*-run[^\n#&|;]*)", run_txt):
-            t = m.group(1).strip().rstrip(")").strip()
+            t = re.sub(r"\s+[12]?>\s*\S*\s*$", "", m.group(1).strip().rstrip(")").strip())
             if t not in tests:
                 tests.append(t)
         godebug = "GODEBUG=asynctimerchan=0 " if "asynctimerchan" in run_txt else ""
